@@ -5,6 +5,8 @@ import (
 	"fmt"
 	"math/big"
 	"math/bits"
+	"strconv"
+	"strings"
 
 	"github.com/bytemare/secp256k1/internal/field"
 	"github.com/bytemare/secp256k1/internal/verif/alpha"
@@ -755,6 +757,15 @@ func init() {
 			var in [48]byte
 			copy(in[:], unhb(c["a"]))
 			key, detail = c12WideCase(in)
+		case "persist12":
+			var path []int
+
+			for _, f := range strings.Fields(strings.Trim(c["path"], "[]")) {
+				i, _ := strconv.Atoi(f)
+				path = append(path, i)
+			}
+
+			key, detail = c12pRun(path, c12pOps())
 		}
 
 		return key == "", key + " " + detail
